@@ -10,6 +10,9 @@
 #include <pthread.h>
 
 namespace h3 {
+// forces construction at RUN time: the initializer is not a constant expression, so a static is initialised dynamically
+template<class F> static auto at_run_time(F f) { volatile int z = 0; if (z) std::abort(); return f(); }
+
 using namespace ctpg;
 struct ctxlog { std::vector<int> calls; };
 
